@@ -607,9 +607,10 @@ mod query {
         let revision_id = *id;
         let mut stmt = db.prepare(
             "SELECT patches.id, patch, revisions.value AS revision
-             FROM patches, json_tree(patches.patch, '$.revisions') AS revisions
+             FROM patches, json_each(patches.patch, '$.revisions') AS revisions
              WHERE repo = ?1
              AND revisions.key = ?2
+             AND revisions.type != 'null'
             ",
         )?;
         stmt.bind((1, rid))?;
